@@ -88,6 +88,8 @@ type Store struct {
 	True   *Term
 	False  *Term
 	nvars  int
+	// Preamble collects solver text that must be asserted at stack level 0 (constant table contents).
+	Preamble strings.Builder
 }
 
 func NewStore() *Store {
@@ -916,9 +918,11 @@ func (s *Store) emit(sb *strings.Builder, t *Term) {
 		tb := s.Tables[t.Val]
 		if !tb.defined {
 			tb.defined = true
-			fmt.Fprintf(sb, "(declare-const T%d (Array (_ BitVec %d) (_ BitVec %d)))\n", tb.ID, tb.IW, tb.W)
+			// table contents are assertions: they must live at solver stack level 0, so they go to the
+			// preamble, which the solver driver emits after popping every open scope
+			fmt.Fprintf(&s.Preamble, "(declare-const T%d (Array (_ BitVec %d) (_ BitVec %d)))\n", tb.ID, tb.IW, tb.W)
 			for i, v := range tb.Vals {
-				fmt.Fprintf(sb, "(assert (= (select T%d %s) %s))\n", tb.ID, constStr(tb.IW, uint64(i)), constStr(tb.W, v))
+				fmt.Fprintf(&s.Preamble, "(assert (= (select T%d %s) %s))\n", tb.ID, constStr(tb.IW, uint64(i)), constStr(tb.W, v))
 			}
 		}
 		body = fmt.Sprintf("(select T%d %s)", tb.ID, t.A.Ref())
